@@ -758,6 +758,9 @@ def _line(model, rep):
             if args[0] is marked:
                 cap["marked-normalised"] = True
             return args[0]
+        if name in ("numpy.asarray", "numpy.array") and args and \
+                args[0] is marked:
+            return marked        # a conversion of the marked set: same set
         if name == "numpy.arange":
             a = [Poly.coerce(x) for x in args]
             return ARange(a[0], a[1]) if len(a) == 2 else ARange(Poly(), a[0])
@@ -1144,6 +1147,98 @@ def _homogeneous_geometry(model, rep):
     if n < 20:
         raise AnalysisError(f"only {n} dimension checks in the adaptive "
                             f"sort routines")
+    # the same decisions must not depend on where the mesh lies either:
+    # every quantity computed in the sort routines is a position, or
+    # invariant under translation (skv/invariance.py)
+    from ..invariance import AFF, straight_line
+    for modn, clsn in (("skfem.mesh.mesh_tri_1", "MeshTri1"),
+                       ("skfem.mesh.mesh_tet_1", "MeshTet1")):
+        fn = model.cls(modn, clsn).methods["_adaptive_sort_mesh"]
+        init = {p_: (AFF if p_ == "p" else ("inv", 0))
+                for p_ in fn.params() if p_ != "self"}
+        out, _, _ = straight_line(fn.node.body, init)
+        q = f"{clsn}._adaptive_sort_mesh"
+        bad = [(st, nm, v) for st, nm, v in out if v[0] == "bad"]
+        lens = [v for _, nm, v in out if v == ("inv", 1)]
+        if len(lens) < 3 and not bad:
+            raise AnalysisError(f"{q}: edge lengths not recognised")
+        if bad:
+            st, nm, v = bad[0]
+            rep.fail(R2, fn.path, q, f"{q}:translation-invariant",
+                     f"'{nm}' depends on the position of the mesh: {v[1]} - "
+                     f"for a mesh far from the origin the tie-breaking "
+                     f"perturbation reaches the size of the cells and the "
+                     f"'longest' edge is a random one (cell shapes "
+                     f"degenerate under repeated refinement)", st.lineno)
+        else:
+            rep.ok(R2, f"{q}:translation-invariant",
+                   f"{len(out)} assignments: positions, or quantities "
+                   f"unchanged by a translation of the mesh")
+
+
+def _admissible_input_not_refused(model, rep):
+    """Two ways in which an admissible marked set / mesh is refused although
+    the algorithm would cope.  (a) ``assert`` on input *data* inside the
+    refinement routines: the bisection is index based, a mesh whose point
+    array holds two equal columns (unused trailing points at edge midpoints,
+    an unmerged crack, the zeroed unused columns of a MeshTet2) refines
+    correctly, but an assert comparing coordinates raises a bare
+    AssertionError - and vanishes under ``python -O``.  (b) the marked set is
+    normalised with np.unique: of an empty *Python sequence* that is a
+    float64 array, which cannot index; every _adaptive that feeds
+    np.unique(marked) into an index needs an integer conversion first (the
+    siblings agree: the empty set returns the mesh unchanged)."""
+    R6 = "C13-R6"
+    n = 0
+    for c in model.all_classes():
+        if not c.path.startswith("skfem/mesh/"):
+            continue
+        for name, fn in c.methods.items():
+            if not (name.startswith("_adaptive") or name == "_uniform"):
+                continue
+            n += 1
+            asserts = [x for x in walk_no_nested(fn.node)
+                       if isinstance(x, ast.Assert)]
+            cons = f"{fn.short()}:no-assert-on-data"
+            if asserts:
+                rep.fail(R6, fn.path, fn.short(), cons,
+                         f"'{src(asserts[0])[:70]}' refuses input by an "
+                         f"assert: a bare AssertionError for a mesh the "
+                         f"index-based algorithm handles (two stored points "
+                         f"with equal coordinates: unused trailing points, "
+                         f"an unmerged crack), and no test at all under "
+                         f"python -O", asserts[0].lineno)
+            else:
+                rep.ok(R6, cons, "no assert statement")
+            if name != "_adaptive" or len(fn.params()) < 2:
+                continue
+            par = fn.params()[1]
+            uniq = [x for x in walk_no_nested(fn.node)
+                    if isinstance(x, ast.Call) and src(x.func) == "np.unique"
+                    and x.args and src(x.args[0]) == par]
+            if not uniq:
+                continue
+            typed = any(
+                isinstance(x, ast.Call) and src(x.func) in (
+                    "np.array", "np.asarray") and x.args and src(
+                    x.args[0]) == par and any(
+                    k.arg == "dtype" and "int" in src(k.value)
+                    for k in x.keywords)
+                for x in walk_no_nested(fn.node)
+                if getattr(x, "lineno", 0) <= uniq[0].lineno)
+            cons = f"{fn.short()}:marked-set-integer"
+            if typed:
+                rep.ok(R6, cons, "the marked set is converted to an integer "
+                       "array before np.unique")
+            else:
+                rep.fail(R6, fn.path, fn.short(), cons,
+                         f"'{src(uniq[0])}' of the marked set as given: for "
+                         f"an empty list / tuple it is a float64 array and "
+                         f"the index expressions after it raise IndexError, "
+                         f"while the sibling classes return the mesh "
+                         f"unchanged for the empty set", uniq[0].lineno)
+    if n < 8:
+        raise AnalysisError(f"only {n} refinement routines found")
 
 
 def _tet_capacity(model, rep):
@@ -1368,6 +1463,7 @@ def run(model: Model, rep, tier: str) -> None:
     staged(lambda: _entry_points(model, rep),
            lambda: _homogeneous_geometry(model, rep),
            lambda: _tet_capacity(model, rep),
+           lambda: _admissible_input_not_refused(model, rep),
            lambda: _subdomain_propagation(model, rep),
            lambda: _templates(model, rep), lambda: _line(model, rep),
            lambda: _sentinel_tables(model, rep),
@@ -1389,16 +1485,31 @@ _LI = "skfem/mesh/mesh_line_1.py"
 _TE = "skfem/mesh/mesh_tet_1.py"
 _SETD = "np.setdiff1d(np.unique(new_t[:, ixs]), [-1])"
 MUTANTS = [
+    ("tetrahedral bisection asserts distinct coordinates again",
+     (_TE, "                nv += nn\n",
+      "                nv += nn\n                assert len(np.unique("
+      "p[:, :nv].T, axis=0)) == nv\n"), "C13-R6"),
+    ("segment refinement takes the marked set as given",
+     (_LI, "        marked = np.unique(np.asarray(marked, dtype=np.int64))",
+      "        marked = np.unique(marked)"), "C13-R6"),
     ("tetrahedral tie-breaking noise of absolute size",
-     (_TE, "        p = p.copy() + 1e-10 * np.abs(p).max() * "
+     (_TE, "        p = p + 1e-10 * np.abs(p[:, t]).max() * "
       "rng.random_sample(p.shape)",
-      "        p = p.copy() + 1e-10 * rng.random_sample(p.shape)"),
+      "        p = p + 1e-10 * rng.random_sample(p.shape)"),
      "C13-R2"),
+    ("tetrahedral tie-breaking noise relative to the distance from the "
+     "origin",
+     (_TE, "        p = p - p[:, t[0, :1]]\n        p = p + 1e-10 * "
+      "np.abs(p[:, t]).max() * rng.random_sample(p.shape)",
+      "        p = p.copy() + 1e-10 * np.abs(p).max() * "
+      "rng.random_sample(p.shape)"), "C13-R2"),
     ("periodic meshes inherit adaptive refinement again",
      ("skfem/mesh/mesh_dg.py", "    def _adaptive(self, *args, **kwargs):\n        raise NotImplementedError\n\n", ""), "C13-R4"),
     ("line refinement uses the marked array as given",
-     (_LI, "        marked = np.unique(marked)\n\n        mid =",
-      "\n        mid ="), "C13-R2"),
+     (_LI, "        marked = np.unique(np.asarray(marked, dtype=np.int64))"
+      "\n\n        mid =",
+      "        marked = np.asarray(marked, dtype=np.int64)\n\n        "
+      "mid ="), "C13-R2"),
     ("second-order triangles refine adaptively without their subdomains",
      ("skfem/mesh/mesh_tri_2.py",
       "        m = replace(MeshTri1.from_mesh(self),\n"
@@ -1520,6 +1631,13 @@ MUTANTS = [
       "            t=t[:, :nt],\n"), "C13-R4"),
 ]
 TWINS = [
+    ("segment refinement converts the marked set in two steps",
+     (_LI, "        marked = np.unique(np.asarray(marked, dtype=np.int64))",
+      "        marked = np.asarray(marked, dtype=np.int32)\n        marked "
+      "= np.unique(marked)")),
+    ("tetrahedral noise measured from the corner of the bounding box",
+     (_TE, "        p = p - p[:, t[0, :1]]\n",
+      "        p = p - p[:, t.flatten()].min(axis=1, keepdims=True)\n")),
     ("second-order triangles: propagated subdomains attached in two steps",
      ("skfem/mesh/mesh_tri_2.py",
       "                    _subdomains=self._subdomains).refined(marked)\n"
